@@ -1420,7 +1420,16 @@ fn process_fn(ctx: &mut Ctx, d: &FnDirective, assume_default: bool, tfile: &str)
                     };
                     if nm == id {
                         let (x, y) = src.range(sp);
-                        auto.push((id.clone(), src.text[x..y].to_string()));
+                        let mut t = src.text[x..y].to_string();
+                        // R20 on the imported item: `&T` in a const/static type is `&'static T`
+                        let ty: Option<&syn::Type> = match it { syn::Item::Const(c) => Some(&*c.ty), syn::Item::Static(c) => Some(&*c.ty), _ => None };
+                        if let Some(syn::Type::Reference(r)) = ty {
+                            if r.lifetime.is_none() {
+                                let amp_end = src.range(r.and_token.span()).1;
+                                if amp_end >= x && amp_end <= y { t.insert_str(amp_end - x, "'static "); }
+                            }
+                        }
+                        auto.push((id.clone(), t));
                     }
                 }
             }
